@@ -48,6 +48,10 @@ let init () =
     ^ " B " ^ bitmap r.rr_rect 2 (fun p -> rrc_contains c p)
     ^ " P " ^ list_out (fun p -> z_out p.px ^ ":" ^ z_out p.py) (rr_points r)
     ^ " BB " ^ srect (rr_bounding_box r));
+  register "rr_translate" (fun a ->
+    match rr_in a with
+    | (r, [dx; dy]) -> let t = srr (rr_translate r { px = z_in dx; py = z_in dy }) in t ^ " M " ^ t
+    | _ -> "BAD-ARGS");
   register "rr_offset" (fun a ->
     match rr_in a with
     | (r, [n]) -> srr (rr_offset r (z_in n))
